@@ -926,6 +926,13 @@ impl<'a> Message<'a> {
                     e
                 );
                 match e {
+                    // fewer than 4 bytes left: the counts are those of the attribute header itself
+                    StunParseError::Truncated { expected, actual } if data.len() < 4 => {
+                        StunParseError::Truncated {
+                            expected: expected + data_offset,
+                            actual: actual + data_offset,
+                        }
+                    }
                     StunParseError::Truncated { expected, actual } => StunParseError::Truncated {
                         expected: expected + 4 + data_offset,
                         actual: actual + 4 + data_offset,
